@@ -42,11 +42,14 @@ def gaps_for(H):
     return g
 
 
+RUN_CFG = [{}]        # further configuration of the worlds a task builds (e.g. RIB maintenance on)
+
+
 class Run(object):
     """One execution; branches (timer ties) are explored by re-executing the event prefix."""
 
     def __init__(self, hc, hp, events):
-        self.w = W.AgentWorld({'hold': hc})
+        self.w = W.AgentWorld(dict(RUN_CFG[0], hold=hc))
         self.hc, self.hp = hc, hp
         self.H = min(hc, hp)
         for ev in events:
@@ -224,7 +227,8 @@ def schedules(H, depth, base, with_send):
 
 
 def task(args):
-    hc, hp, base, sched_list = args
+    hc, hp, base, sched_list = args[:4]
+    RUN_CFG[0] = args[4] if len(args) > 4 else {}
     stats = {'runs': 0, 'h0_timers': 0}
     viols = []
     leaves = [0]
@@ -235,7 +239,7 @@ def task(args):
         t = r.w.sim.connectors[0].transport
         classes.add((base, min(hc, hp) > 0, t.lose_time is not None, tuple(s[0] for s in done)))
         for k, d in check_run(r, done, base):
-            viols.append((k, d))
+            viols.append((k + ('|rib on' if RUN_CFG[0].get('rib') else ''), dict(d, cfg=RUN_CFG[0])))
     for steps in sched_list:
         explore_schedule(hc, hp, base, list(steps), stats, out)
     return {'runs': stats['runs'], 'leaves': leaves[0], 'viols': viols, 'classes': classes, 'schedules': len(sched_list)}
@@ -255,6 +259,11 @@ def run(tier, seed):
                 # split for load balance
                 for i in range(0, len(sl), 200):
                     tasks.append((hc, hp, base, sl[i:i + 200]))
+    # the same UPDATE again and again is an arrival every time, also when RIB maintenance finds nothing new in it
+    for hc, hp in ((30, 90), (9, 9), (180, 3)):
+        sl = schedules(min(hc, hp), depth, 'ESTABLISHED', with_send=False)
+        for i in range(0, len(sl), 200):
+            tasks.append((hc, hp, 'ESTABLISHED', sl[i:i + 200], {'rib': True}))
     explore.HARNESS = None
     results = explore.pmap(task, tasks, chunk=1)
     explore.close_pool()
@@ -267,7 +276,7 @@ def run(tier, seed):
         nsched += r['schedules']
         classes |= r['classes']
         for k, d in r['viols']:
-            col.add(k, {'hc': d['hc'], 'hp': d['hp'], 'base': d['base'], 'events': d['events'], 'steps': d['steps']}, d)
+            col.add(k, {'hc': d['hc'], 'hp': d['hp'], 'base': d['base'], 'events': d['events'], 'steps': d['steps'], 'cfg': d.get('cfg') or {}}, d)
     n_new, n_known, summary = col.finish('c03-schedule')
     cov = {
         'evaluations': leaves, 'distinct_nontrivial': len(classes),
@@ -291,11 +300,12 @@ def replay(path):
     d = json.load(open(path))
     wit = d['witness']
     outs = []
+    RUN_CFG[0] = wit.get('cfg') or {}
     for _ in range(2):
         r = Run(wit['hc'], wit['hp'], [tuple(e) for e in wit['events']])
         r.sends = []
         t = r.w.sim.connectors[0].transport
-        keys = [k for k, _ in check_run(r, [tuple(x) for x in wit['steps']], wit['base'])]
+        keys = [k + ('|rib on' if RUN_CFG[0].get('rib') else '') for k, _ in check_run(r, [tuple(x) for x in wit['steps']], wit['base'])]
         outs.append(([(round(a - r.w.sim.t0, 6), wire.abstract_writes(b)) for a, b in t.writes], t.lose_time, r.w.reported_state(), keys))
     if outs[0] != outs[1]:
         print('HARNESS-ERROR: replay is not deterministic')
